@@ -47,6 +47,8 @@ struct Run<'a> {
     conns: Vec<Option<TcpClient>>, // index 1..=conns ; 1 = root
     raw_tokens: BTreeMap<u64, String>, // model token id -> raw token
     pat_names: BTreeMap<u64, String>,
+    /// root's user-administration commands go over HTTP in every second scenario (the HTTP handlers journal on their own)
+    http_admin: Option<iggy::http::client::HttpClient>,
 }
 
 impl AuthLens {
@@ -67,6 +69,7 @@ impl AuthLens {
             conns: (0..=scn.conns).map(|_| None).collect(),
             raw_tokens: BTreeMap::new(),
             pat_names: BTreeMap::new(),
+            http_admin: None,
         };
         let r = self.run_inner(idx, &mut run, out);
         run.conns.clear();
@@ -88,6 +91,7 @@ impl AuthLens {
             };
             run.conns[c] = Some(cl);
         }
+        run.http_admin = if run.scn.seed % 2 == 1 { Some(inc.rt.block_on(srv::http_root(inc.http.unwrap()))?) } else { None };
         run.inc = Some(inc);
         Ok(())
     }
@@ -160,7 +164,10 @@ impl AuthLens {
             "create_user" => {
                 let active = step["active"].as_bool().unwrap_or(true);
                 let inc = run.inc.as_ref().unwrap();
-                let cl = run.conns[c].as_ref().ok_or("no conn")?;
+                let cl: &dyn iggy::client::UserClient = match (c, run.http_admin.as_ref()) {
+                    (1, Some(h)) => h,
+                    _ => run.conns[c].as_ref().ok_or("no conn")?,
+                };
                 res_of(&inc.rt.block_on(cl.create_user(
                     self.name(run, &mname),
                     self.pwd(run, step["pwd"].as_str().unwrap_or("")),
@@ -170,7 +177,10 @@ impl AuthLens {
             }
             "change_password" => {
                 let inc = run.inc.as_ref().unwrap();
-                let cl = run.conns[c].as_ref().ok_or("no conn")?;
+                let cl: &dyn iggy::client::UserClient = match (c, run.http_admin.as_ref()) {
+                    (1, Some(h)) => h,
+                    _ => run.conns[c].as_ref().ok_or("no conn")?,
+                };
                 let id = Identifier::named(self.name(run, &mname)).map_err(|e| e.to_string())?;
                 res_of(&inc.rt.block_on(cl.change_password(
                     &id,
@@ -181,13 +191,19 @@ impl AuthLens {
             "set_status" => {
                 let active = step["active"].as_bool().unwrap_or(true);
                 let inc = run.inc.as_ref().unwrap();
-                let cl = run.conns[c].as_ref().ok_or("no conn")?;
+                let cl: &dyn iggy::client::UserClient = match (c, run.http_admin.as_ref()) {
+                    (1, Some(h)) => h,
+                    _ => run.conns[c].as_ref().ok_or("no conn")?,
+                };
                 let id = Identifier::named(self.name(run, &mname)).map_err(|e| e.to_string())?;
                 res_of(&inc.rt.block_on(cl.update_user(&id, None, Some(if active { UserStatus::Active } else { UserStatus::Inactive }))))
             }
             "delete_user" => {
                 let inc = run.inc.as_ref().unwrap();
-                let cl = run.conns[c].as_ref().ok_or("no conn")?;
+                let cl: &dyn iggy::client::UserClient = match (c, run.http_admin.as_ref()) {
+                    (1, Some(h)) => h,
+                    _ => run.conns[c].as_ref().ok_or("no conn")?,
+                };
                 let id = Identifier::named(self.name(run, &mname)).map_err(|e| e.to_string())?;
                 res_of(&inc.rt.block_on(cl.delete_user(&id)))
             }
